@@ -182,7 +182,7 @@ class IndentationFitter(object):
         # IMPORTANT:
         # If there are new additions in the default values,
         # make sure to take these into account in `FP_DEFAULT`.
-        self.fp = FitProperties(**FP_DEFAULT)
+        self.fp = FitProperties(**copy.deepcopy(FP_DEFAULT))
 
         # Get parameters from dataset
         # (sorted, such that `model_key` is set before `params_initial`)
